@@ -108,6 +108,8 @@ class _B:
             opts += ["pause"]
         if self.profile == "replay_data":
             opts += ["monitor", "flyer", "subscribe", "configure", "stage_pair"]
+        if self.profile == "nonresumable":
+            opts += ["rewindable", "rewindable", "stage_pair", "monitor", "subscribe"]
         if self.profile in ("general", "replay", "keys", "lifecycle", "defer", "suspend"):
             opts += ["monitor", "flyer", "subscribe", "rewindable", "configure", "stage_pair"]
         if self.profile == "replay":
@@ -358,6 +360,11 @@ def cases(profile="general"):
             kinds = ["pause", "defer", "suspend", "abort", "stop", "halt"]
         ninj = (1 if profile == "defer" else draw(st.integers(0 if profile in ("errors",) else 1, 2))) if kinds else 0
         injs = [_injection(draw, st, kinds) for _ in range(ninj)]
+        if profile == "nonresumable" and injs and draw(st.integers(0, 3)) > 0:
+            # aim the first request at the non-resumable section: some messages after the clear_checkpoint
+            injs[0].pop("at_msg", None)
+            injs[0]["at_cmd"] = "clear_checkpoint"
+            injs[0]["plus_msgs"] = draw(st.integers(0, 10))
         stages = [{"do": "call", "inj": injs}]
         if profile in ("replay", "replay_data"):
             for _ in range(3):
